@@ -2,7 +2,9 @@ package witnessworld
 
 import (
 	"bytes"
+	"encoding/base64"
 	"fmt"
+	"strings"
 	"sync/atomic"
 	"time"
 
@@ -59,10 +61,15 @@ func (w *World) checkRowsAt(begin, end int) {
 		if bytes.Equal(old, now) {
 			continue
 		}
-		l := w.logByID[id]
+		// per configured log by decoded identity: whatever spelling of its id a head
+		// was stored under, it belongs to that log's one history
+		l := w.resolveLog(id)
 		if l == nil {
 			s.Violate("stored-for-unconfigured-log", "row", "a tree head was stored under id %q, which is not a configured log", id)
 			return
+		}
+		if id != l.idB64 {
+			s.Probe("stored.under-alias-spelling")
 		}
 		h, err := parseSTH(now)
 		if err != nil {
@@ -88,8 +95,35 @@ func (w *World) checkRowsAt(begin, end int) {
 				return
 			}
 			s.Probe("update.accepted")
+			if h.Size == prev.Size+1 {
+				s.Probe("accepted.by-one-leaf")
+			}
+			if prev.Size == 0 {
+				s.Probe("accepted.from-size0")
+			}
+			np, nn := 0, 0
+			for _, t := range l.trees {
+				if onTree(t, prev.Size, prev.Root) {
+					np++
+				}
+				if onTree(t, h.Size, h.Root) {
+					nn++
+				}
+			}
+			if nn > 0 && nn < np {
+				s.Probe("accepted.past-a-forkpoint")
+			}
 		} else {
 			s.Probe("update.tofu")
+		}
+		if h.Size == 0 {
+			s.Probe("held.size0")
+		}
+		if treeOf(l, h) == nil {
+			s.Probe("offtree.accepted")
+		}
+		if len(h.LogID) != 0 && idAbsent(h.LogID) {
+			s.Probe("held.zero-id")
 		}
 		w.known[h.key] = h
 		w.held[l.idx] = h
@@ -197,11 +231,34 @@ func (w *World) checkReturned(o *op) (*sth, bool) {
 			err = oracle.VerifyDS(w.wkey.Priv.Public(), msg, ds)
 		}
 		if err != nil {
+			if o.Kind == "update" && bytes.Equal(o.Body, w.rowAt(o)) && !bytes.Equal(ws, nil) && w.feederSupplied(ws) {
+				// the answer is the stored byte string itself and the signature in it came from a feeder
+				s.Violate("cosignature-invalid", "update/stored-bytes-echoed-with-feeder-supplied-witness_signatures", "%s update via %s was answered %s with the stored bytes of (%s); they carry a \"witness_signatures\" member that a feeder put there and that does not verify under the witness key: %v", o.Party, via(o), o.Outcome, h, err)
+				return nil, false
+			}
 			s.Violate("cosignature-invalid", o.Kind+"/"+w.wkey.Kind, "%s %s via %s: witness signature %d over (%s) does not verify under the witness key: %v", o.Party, o.Kind, via(o), i, h, err)
 			return nil, false
 		}
 	}
 	return h, true
+}
+
+// rowAt: the stored bytes of the addressed log as last read (nil: none).
+func (w *World) rowAt(o *op) []byte {
+	if o.Log == nil {
+		return nil
+	}
+	return w.rows[o.Log.idB64]
+}
+
+// feederSupplied reports whether a witness signature value was put on the wire by a feeder of this run.
+func (w *World) feederSupplied(ws []byte) bool {
+	for _, o := range w.ops {
+		if o.Spliced != "" && strings.Contains(o.Spliced, base64.StdEncoding.EncodeToString(ws)) {
+			return true
+		}
+	}
+	return false
 }
 
 func inHeld(list []*sth, h *sth) bool {
@@ -230,6 +287,46 @@ func (w *World) judge(o *op) {
 	case "getlogs":
 		s.Logf("%s getlogs -> %s%s n=%d", o.Party, o.Outcome, code, len(o.Logs))
 		s.Probe("getlogs." + o.Outcome)
+		if o.Outcome != "ok" {
+			return
+		}
+		// the list names exactly configured ids (no other spelling, no stranger) that hold a head
+		listed := map[string]bool{}
+		for _, id := range o.Logs {
+			listed[id] = true
+			l := w.logByID[id]
+			if l == nil {
+				kind := "unknown-id"
+				if w.resolveLog(id) != nil {
+					kind = "alias-spelling"
+				}
+				s.Violate("getlogs-lists-unconfigured-id", kind, "%s getlogs lists %q, which is not the id of a configured log", o.Party, id)
+				return
+			}
+			some := false
+			for _, h := range w.heldDuring(l, o.CallStep, o.RetStep) {
+				if h != nil {
+					some = true
+				}
+			}
+			if !some {
+				s.Violate("getlogs-lists-log-without-head", via(o), "%s getlogs lists %s, for which nothing was stored at any moment of the call", o.Party, l.name)
+				return
+			}
+		}
+		at := o.CallStep
+		if s.Timed {
+			at--
+		}
+		for _, l := range w.logs {
+			if w.heldAt(l, at) != nil && !listed[l.idB64] {
+				s.Violate("getlogs-omits-held-log", via(o), "%s getlogs does not list %s although a head was stored for it before the call began", o.Party, l.name)
+				return
+			}
+		}
+		if len(o.Logs) > 0 {
+			s.Probe("getlogs.nonempty")
+		}
 		return
 	case "getsth":
 		if o.Outcome == "ok" {
@@ -247,7 +344,11 @@ func (w *World) judge(o *op) {
 		}
 		s.Logf("%s getsth -> %s%s", o.Party, o.Outcome, code)
 		s.Probe("getsth." + o.Outcome)
-		if o.Outcome == "notfound" && o.Log != nil && !o.Faulted {
+		if o.Alias != "" {
+			s.Probe("getsth.alias-id." + o.Outcome)
+		}
+		// (an alias spelling need not resolve: the statement only covers the configured id)
+		if o.Outcome == "notfound" && o.Log != nil && !o.Faulted && o.Alias == "" {
 			at := o.CallStep
 			if s.Timed {
 				at-- // only commits certainly finished before the call began
@@ -275,7 +376,11 @@ func (w *World) judge(o *op) {
 	}
 	s.Logf("%s update -> %s%s (%s) committed=%v", o.Party, o.Outcome, code, h, committed)
 	if o.Outcome != "ok" && committed && !o.LostAck {
-		s.Violate("refused-but-stored", o.Outcome, "%s update %s[%s] was answered %s, yet its transaction committed", o.Party, o.CandKind, o.Cand.desc, o.Outcome)
+		key := o.Outcome
+		if w.wkey.Kind == "ed25519" {
+			key += "/witness-key-ed25519" // New accepted a key type signSTH cannot sign with
+		}
+		s.Violate("refused-but-stored", key, "%s update %s[%s] was answered %s, yet its transaction committed", o.Party, o.CandKind, o.Cand.desc, o.Outcome)
 		return
 	}
 	switch o.Outcome {
@@ -331,6 +436,11 @@ func (w *World) judge(o *op) {
 			s.Probe("refused.precond.other")
 		case o.Cand.h.Size < want.Size:
 			s.Probe("refused.stale")
+			if o.Cand.h.Size+1 == want.Size {
+				s.Probe("refused.stale.by-one-leaf")
+			}
+		case o.Cand.h.Size == want.Size:
+			s.Probe("refused.equal-size-other-root")
 		default:
 			s.Probe("refused.inconsistent")
 		}
@@ -338,8 +448,14 @@ func (w *World) judge(o *op) {
 		switch {
 		case o.Faulted || busy > 0:
 			s.Probe("update.failed.db")
+		case o.CtxDone:
+			s.Probe("update.failed.ctx-cancelled")
+		case o.Malformed:
+			s.Probe("refused.malformed-request." + o.Outcome)
 		case o.Log == nil:
 			s.Probe("refused.unknownlog")
+		case o.Alias != "":
+			s.Probe("refused.alias-id")
 		case o.CandKind == "mismatchid" || (o.CandKind == "otherlog" && o.Cand.h != nil && len(o.Cand.h.LogID) != 0 && !bytes.Equal(o.Cand.h.LogID, o.Log.id[:])):
 			s.Probe("refused.mismatchid")
 		case o.CandKind == "garbage":
@@ -386,6 +502,9 @@ func (w *World) linearizable() {
 				in.valid = logSigned(l, o.Cand.h) == nil
 			}
 			out := pcOut{class: o.Outcome}
+			if o.Alias != "" && o.Outcome == "notfound" {
+				out.class = "err" // the spelling was not taken for the log: an unknown id, no statement about the state
+			}
 			if o.Outcome == "ok" || o.Outcome == "precond" {
 				if h, err := parseSTH(o.Body); err == nil {
 					out.body = h.key
